@@ -435,6 +435,43 @@ func genDriver(repo, out string) {
 	}
 	fmt.Fprintf(&b, "/-- codec.Dump: every function it calls, every assignment through an index, slice or pointer -/\ndef dumpFacts : List String := [%s]\n\n", strings.Join(dump, ", "))
 	fmt.Fprintf(&b, "/-- per request method: every kind of syntactic use of its request parameter -/\ndef requestUses : List (String × List String) := [%s]\n\n", strings.Join(uses, ",\n  "))
+	// --- SendTCP: the time spent connecting counts against the one timeout iff the deadline handed to the dialer and the
+	// deadline set on the connection are the same, once-computed value
+	{
+		single := false
+		if fn := findFunc(f, "SendTCP", "ut0311"); fn != nil {
+			assigns := 0
+			dial, sock := "", ""
+			ast.Inspect(fn.Body, func(n ast.Node) bool {
+				switch x := n.(type) {
+				case *ast.AssignStmt:
+					for i, l := range x.Lhs {
+						if src(l) == "deadline" {
+							assigns++
+							if i < len(x.Rhs) && src(x.Rhs[i]) != "time.Now().Add(u.timeout)" {
+								assigns += 10
+							}
+						}
+					}
+				case *ast.KeyValueExpr:
+					if src(x.Key) == "Deadline" {
+						dial = src(x.Value)
+					}
+				case *ast.CallExpr:
+					if strings.HasSuffix(src(x.Fun), ".SetDeadline") && len(x.Args) == 1 {
+						if sock != "" {
+							sock = "more-than-one"
+						} else {
+							sock = src(x.Args[0])
+						}
+					}
+				}
+				return true
+			})
+			single = assigns == 1 && dial == "deadline" && sock == "deadline"
+		}
+		fmt.Fprintf(&b, "/-- SendTCP: one `deadline := time.Now().Add(u.timeout)`, handed to the dialer and set on the connection -/\ndef tcpSingleDeadline : Bool := %v\n\n", single)
+	}
 	fmt.Fprintf(&b, "/-- per request method: what `bind` is initialised from, the condition under which it is replaced by the wildcard address, what the socket is opened on -/\ndef bindFacts : List (String × List String) := [%s]\n\n", strings.Join(binds, ",\n  "))
 	fmt.Fprintf(&b, "/-- size of the receive buffer each method reads a datagram into (0 = not recognised) -/\ndef bufSizes : List (String × Nat) := [%s]\n\n", strings.Join(sizes, ", "))
 	b.WriteString("end Uhppote.Gen.Driver\n")
